@@ -20,6 +20,8 @@ def atoms_of(e: ast.expr, atomize: Callable[[ast.expr], str | None]) -> list[str
     out: list[str] = []
 
     def go(x: ast.expr) -> None:
+        while isinstance(x, ast.NamedExpr):  # `(n := e)` has the truth value of e
+            x = x.value
         a = atomize(x)
         if a is not None:
             if a not in out:
@@ -45,6 +47,8 @@ def atoms_of(e: ast.expr, atomize: Callable[[ast.expr], str | None]) -> list[str
 
 
 def evaluate(e: ast.expr, env: dict[str, bool], atomize: Callable[[ast.expr], str | None]) -> bool:
+    while isinstance(e, ast.NamedExpr):
+        e = e.value
     a = atomize(e)
     if a is not None:
         return env[a]
